@@ -23,7 +23,7 @@ REQUIRED = ["payload_only_in_payload_msg", "private_payload_release_sound", "dec
             "connection_authenticated_only_via_authenticator", "fact_authenticate_call_sites",
             "created_private_has_full_pal", "fact_encrypt_and_authenticator_stateless",
             "fact_payload_presence_guards", "public_tx_admitted_only_with_payload",
-            "offloaded_certificate_needs_exactly_one_value", "fact_offloading_header_checks"]
+            "offloaded_certificate_needs_exactly_one_value", "fact_offloading_header_checks", "authenticated_with_proven_certificate"]
 
 
 def run(ctx):
@@ -244,6 +244,8 @@ def run(ctx):
                         # connection manager wrapper: authenticated only if a DID was claimed and the LEAF certificate covers its NutsComm host
                         if "auth=true" in l and not (j["claimed"] != "" and j["cert"] and j["leaf_covers"]):
                             t_bad += 1
+                            if any("connection-authenticated-without" in v[1] for v in ctx.violations):
+                                continue
                             ctx.violation("C15:connection-authenticated-without-covering-leaf-certificate", f"grpcConnectionManager.authenticate/extractCertificate: {ops3[k]} -> {l}", "cmauth.jsonl", ops3[k])
                         continue
                     if "accepted=true" in l and not (j["presented"] and j["chains"]):
